@@ -1,6 +1,6 @@
 """C14 -- dejitter, alignBoundariesAcrossTiers and morph move times only as far as allowed and keep labels."""
 import sys
-from .. import core, gen, tierops, obshist
+from .. import core, gen, tierops, tgops, obshist
 
 ID = "C14"
 MODULE = "Check.C14Check"
@@ -143,7 +143,8 @@ def run(case):
             r = praatio_scripts.alignBoundariesAcrossTiers(tg, refname, d)
         except Exception as e:  # noqa
             return {"per_tier": per, "align_err": core.err_kind(e), "exc": "%s: %s" % (type(e).__name__, e)}
-        return {"names": list(r.tierNames), "tiers": [core.snap_tier(x, sc) for x in r.tiers], "per_tier": per}
+        return {"names": list(r.tierNames), "tiers": [core.snap_tier(x, sc) for x in r.tiers], "per_tier": per,
+                "min": core.tk(r.minTimestamp, sc), "max": core.tk(r.maxTimestamp, sc)}
     return core.run_guarded(h)
 
 
@@ -155,7 +156,17 @@ def emit(case, r):
     op = case["op"]
     t = case["tier"] if "tier" in case else None
     if op == "align":
-        return None
+        # the textgrid that came back against the script-level model, on exact grids
+        if case["scale"][0] != "dyadic" or "ok" not in r or case["args"].get("dfloat"):
+            return None
+        v = r["ok"]
+        tiers = case["tiers"]
+        g = tgops.ctg({"tiers": tiers, "min": min(t["min"] for t in tiers), "max": max(t["max"] for t in tiers)})
+        if "align_err" in v:
+            out = "(Err %s)" % v["align_err"]
+        else:
+            out = "(Ok %s)" % tgops.ctg({"tiers": v["tiers"], "min": v["min"], "max": v["max"]})
+        return "TgAlignC %s %s %s %s" % (g, core.ctext(case["args"]["ref"]), core.cz(case["args"]["d"]), out)
     if op == "timestamps":
         if "ok" not in r:
             return None
